@@ -30,11 +30,11 @@ for _cls, _mt in sorted(_KINDS.items()):
     _vq = RQ + '._loads[%s]' % _cls
     _variants[('self', _cq)] = _vq
     contract(_vq, variant_of=RQ + '._loads',
-             types={'self': "Inst('%s')" % _cq, 'xmldata': 'Union(Str, Bytes)', 'binding': 'Any', 'origdoc': 'Any',
+             types={'self': "Inst('%s')" % _cq, 'xmldata': 'Union(Str, Bytes, NoneT)', 'binding': 'Any', 'origdoc': 'Any',
                     'must': 'Any', 'only_valid_cert': 'Any'},
              returns="Inst('%s')" % _cq,
              requires=['self.message is None'],
-             ensures=[('self', 'result == self'),
+             ensures=[('self', 'result == self'), ('own-copy', 'self.xmlstr == xmldata'),
                       # C10: handed on only if it parses as the expected request type and passes schema validation
                       ('C10-parsed-and-valid', 'self.message is not None and is_msg(%r, xmldata) and schema_valid(self.message)' % _mt),
                       ('C10-must', 'implies(truthy(must), truthy(self.message.signature))'),
